@@ -33,6 +33,7 @@ type DocPeer struct {
 	Addr    string        `dials:"peer_addr"`
 	Weight  int           `dials:"weightValue"`
 	Timeout time.Duration `dials:"dial_timeout"`
+	Since   time.Time     `dials:"since"` // a text-unmarshaling struct by value inside a slice element
 }
 
 // DocEmb is embedded in CfgDoc: JSON and Cue read an embedded struct's leaves
@@ -60,6 +61,7 @@ type CfgDoc struct {
 	IP       net.IP                   `dials:"ip"`
 	Peers    []DocPeer                `dials:"peers"`
 	Waits    []time.Duration          `dials:"waits"`
+	Whens    []time.Time              `dials:"whens"` // text-unmarshaling structs inside a slice
 	Timeouts map[string]time.Duration `dials:"timeouts"`
 	// a format-specific tag takes precedence over the dials tag
 	Alt string `dials:"alt_dials" json:"alt_fmt" yaml:"alt_fmt" toml:"alt_fmt"`
@@ -91,12 +93,14 @@ type DocVal struct {
 	EmptyNums bool             `json:"empty_nums,omitempty"`
 	EmbN      *int             `json:"emb_n,omitempty"`
 	EmbS      *string          `json:"emb_s,omitempty"`
+	Whens     []string         `json:"whens,omitempty"`
 }
 
 type PeerVal struct {
 	Addr      *string `json:"addr,omitempty"`
 	Weight    *int    `json:"weight,omitempty"`
 	TimeoutNS *int64  `json:"timeout_ns,omitempty"`
+	Since     *string `json:"since,omitempty"`
 }
 
 type StreamSpec struct {
@@ -204,6 +208,11 @@ func (g *gen) docVal(p int) DocVal {
 		}
 	}
 	if g.pct(p / 2) {
+		for i, k := 0, g.in(1, 2); i < k; i++ {
+			v.Whens = append(v.Whens, fmt.Sprintf("2019-11-%02dT10:11:12Z", 1+(n+i)%27))
+		}
+	}
+	if g.pct(p / 2) {
 		v.EmbN = ip(n*5 + 2)
 	}
 	if g.pct(p / 2) {
@@ -227,7 +236,10 @@ func (g *gen) docVal(p int) DocVal {
 			if g.pct(50) {
 				pv.TimeoutNS = i64p(int64(n+i) * int64(time.Millisecond) * 250)
 			}
-			if pv.Addr == nil && pv.Weight == nil && pv.TimeoutNS == nil {
+			if g.pct(40) {
+				pv.Since = sp(fmt.Sprintf("2020-01-%02dT02:03:04Z", 1+(n+i)%27))
+			}
+			if pv.Addr == nil && pv.Weight == nil && pv.TimeoutNS == nil && pv.Since == nil {
 				pv.Weight = ip(i)
 			}
 			v.Peers = append(v.Peers, pv)
@@ -325,6 +337,13 @@ func (v *DocVal) expected(def *DocVal) *CfgDoc {
 		if l.Alt != nil {
 			c.Alt = *l.Alt
 		}
+		if l.Whens != nil {
+			c.Whens = nil
+			for _, w := range l.Whens {
+				t, _ := time.Parse(time.RFC3339, w)
+				c.Whens = append(c.Whens, t)
+			}
+		}
 		if l.EmbN != nil {
 			c.EmbN = *l.EmbN
 		}
@@ -355,6 +374,9 @@ func (v *DocVal) expected(def *DocVal) *CfgDoc {
 				}
 				if pv.TimeoutNS != nil {
 					p.Timeout = time.Duration(*pv.TimeoutNS)
+				}
+				if pv.Since != nil {
+					p.Since, _ = time.Parse(time.RFC3339, *pv.Since)
 				}
 				c.Peers = append(c.Peers, p)
 			}
@@ -426,6 +448,13 @@ func (v *DocVal) fields(format string) (top []kv, limits []kv, in []kv, pin []kv
 	if v.Alt != nil {
 		top = append(top, kv{"alt_fmt", str(*v.Alt)})
 	}
+	if v.Whens != nil {
+		if format == "toml" || format == "yaml" {
+			top = append(top, kv{"whens", "[" + strings.Join(v.Whens, ", ") + "]"})
+		} else {
+			top = append(top, kv{"whens", quoteList(v.Whens)})
+		}
+	}
 	if v.WaitsNS != nil {
 		q := make([]string, len(v.WaitsNS))
 		for i, x := range v.WaitsNS {
@@ -458,7 +487,7 @@ func (v *DocVal) fields(format string) (top []kv, limits []kv, in []kv, pin []kv
 	return
 }
 
-func (v *DocVal) peerFields() [][]kv {
+func (v *DocVal) peerFields(format string) [][]kv {
 	var out [][]kv
 	for _, pv := range v.Peers {
 		var l []kv
@@ -470,6 +499,13 @@ func (v *DocVal) peerFields() [][]kv {
 		}
 		if pv.TimeoutNS != nil {
 			l = append(l, kv{"dial_timeout", strconv.Quote(time.Duration(*pv.TimeoutNS).String())})
+		}
+		if pv.Since != nil {
+			if format == "toml" || format == "yaml" {
+				l = append(l, kv{"since", *pv.Since})
+			} else {
+				l = append(l, kv{"since", strconv.Quote(*pv.Since)})
+			}
 		}
 		out = append(out, l)
 	}
@@ -504,7 +540,7 @@ func (v *DocVal) renderDoc(format string) string {
 		top = append(top, emb...)
 		emb = nil
 	}
-	peers := v.peerFields()
+	peers := v.peerFields(format)
 	timeouts := v.timeoutFields()
 	var b strings.Builder
 	obj := func(l []kv, sep, open, close, eq string, quoteKeys bool) string {
@@ -955,7 +991,7 @@ func (r *streamRun) checkUnset(format string, val reflect.Value, v *DocVal, doc 
 		"Name": v.Name == nil, "Count": v.Count == nil, "Ratio": v.Ratio == nil, "On": v.On == nil, "Wait": v.WaitNS == nil,
 		"When": v.When == nil, "Tags": v.Tags == nil, "Nums": v.Nums == nil, "Limits": v.Limits == nil, "Set": v.Set == nil,
 		"In": v.InHost == nil && v.InPort == nil, "PIn": v.PInHost == nil && v.PInPort == nil, "IP": v.IP == nil, "Peers": v.Peers == nil, "Alt": v.Alt == nil, "Waits": v.WaitsNS == nil, "Timeouts": v.TimeoutNS == nil,
-		"DocEmb": v.EmbN == nil && v.EmbS == nil,
+		"DocEmb": v.EmbN == nil && v.EmbS == nil, "Whens": v.Whens == nil,
 	}
 	names := make([]string, 0, len(want))
 	for n := range want {
